@@ -593,6 +593,8 @@ def oracle(seed, tier):
         sc = _gen_scenario(rng, tier)
         out = run_scenario(sc)
         res.evaluations += 1
+        if res.enough():
+            break
         rig = out['rig']
         paths = tuple(sorted({_path_of(sc, rig, i) for i in range(len(rig.kinds))}))
         res.nontrivial.add((sc['cap'], paths, sc['end'], len(rig.kinds) > sc['cap']))
